@@ -341,9 +341,62 @@ func mkValue(typ, ls, rstTs, bits uint64, rk kt) conntrack.Value {
 	return v
 }
 
+// idleExpired is the PROPERTY's notion of "idle longer than the timeout for its protocol and state",
+// written independently of conntrack.entryDone: idle = now - last_seen; the timeouts that apply are
+// read off the timeouts table from the protocol and the TCP state bits.  Returns whether the entry is
+// idle past at least one applicable timeout, and the smallest applicable timeout.
+func idleExpired(to timeouts.Timeouts, now int64, proto uint8, v conntrack.ValueInterface) (bool, time.Duration, time.Duration) {
+	idle := time.Duration(now - v.LastSeen())
+	var app []time.Duration
+	switch proto {
+	case 6:
+		d := v.Data()
+		dsr := v.IsForwardDSR()
+		if d.A2B.RstSeen || d.B2A.RstSeen {
+			app = append(app, to.TCPResetSeen)
+		}
+		if (d.A2B.FinSeen && d.B2A.FinSeen) || (dsr && (d.A2B.FinSeen || d.B2A.FinSeen)) {
+			app = append(app, to.TCPFinsSeen)
+		}
+		if (d.A2B.SynSeen && d.A2B.AckSeen && d.B2A.SynSeen && d.B2A.AckSeen) || dsr {
+			app = append(app, to.TCPEstablished)
+			if v.RSTSeen() != 0 {
+				app = append(app, 2*time.Minute)
+			}
+		} else {
+			app = append(app, to.TCPSynSent)
+		}
+	case 1, 58:
+		app = append(app, to.ICMPTimeout)
+	case 17:
+		app = append(app, to.UDPTimeout)
+	default:
+		app = append(app, to.GenericTimeout)
+	}
+	min := app[0]
+	for _, t := range app {
+		if t < min {
+			min = t
+		}
+	}
+	return idle > min, idle, min
+}
+
+// judged compares the REAL EntryExpired with the property's notion: the scanner must never judge an
+// entry expired while it has not been idle longer than any timeout that applies to it.
+func judged(h *rt.H, s *state, op string, k kt, now int64, v conntrack.ValueInterface) (real, spec bool) {
+	_, real = conntrack.EntryExpired(s.to, now, uint8(k.p), v)
+	spec, idle, min := idleExpired(s.to, now, uint8(k.p), v)
+	if v.Type() != conntrack.TypeNATForward && real && !spec {
+		h.OracleFail("expired-while-not-idle", fmt.Sprintf("EntryExpired judges an entry expired that was idle for %v only; the smallest timeout that applies to its protocol/state is %v", idle, min),
+			map[string]any{"op": op, "key": k.String(), "now": now, "last_seen": v.LastSeen(), "rst_seen": v.RSTSeen(), "idle_ns": int64(idle), "min_timeout_ns": int64(min)})
+	}
+	return real, spec
+}
+
 type before struct {
 	typ     uint8
-	expired bool // by the REAL EntryExpired at the scan's time, under its own key's protocol
+	expired bool // idle past an applicable timeout at the scan's time (the property's notion, see idleExpired)
 	rev     kt
 	ls      int64
 }
@@ -371,7 +424,7 @@ func exec2(h *rt.H, s *state, op string) string {
 		if !ok {
 			return "none"
 		}
-		_, e := conntrack.EntryExpired(s.to, int64(u(w[1])), uint8(k.p), conntrack.ValueFromBytes([]byte(vb)))
+		e, _ := judged(h, s, op, k, int64(u(w[1])), conntrack.ValueFromBytes([]byte(vb)))
 		h.Count(fmt.Sprintf("exp:%v", e))
 		if e {
 			return "1"
@@ -399,7 +452,7 @@ func exec2(h *rt.H, s *state, op string) string {
 		for kb, vb := range s.ct.Contents {
 			k := decKey([]byte(kb))
 			v := conntrack.ValueFromBytes([]byte(vb))
-			_, e := conntrack.EntryExpired(s.to, int64(s.now), uint8(k.p), v)
+			_, e := judged(h, s, op, k, int64(s.now), v)
 			b := before{typ: v.Type(), expired: e, ls: v.LastSeen()}
 			if v.Type() == conntrack.TypeNATForward {
 				b.rev = decKey(v.ReverseNATKey().AsBytes())
@@ -560,6 +613,14 @@ func genCase(h *rt.H) []string {
 		rst := uint64(0)
 		if h.Chance(0.15) {
 			rst = ls - 1
+		}
+		if k.p == 6 && typ != 1 && (bits&1 != 0 || bits&16 != 0) && h.Chance(0.25) {
+			// an old, ignored RST (more than 2 minutes ago, or right at that boundary) on a connection that
+			// carried traffic a moment ago
+			rst = now - 120*sec - rt.Pick(h, []uint64{0, 1, uint64(1+h.Intn(300)) * sec})
+			if h.Chance(0.7) {
+				ls = now - uint64(h.Intn(5))*sec - uint64(h.Intn(1000))
+			}
 		}
 		ops = append(ops, fmt.Sprintf("put %d %d %d %d %d %d %d %d %d %d %d %d %d %d", k.p, k.a, k.pa, k.b, k.pb, typ, ls, rst, bits, rk.p, rk.a, rk.pa, rk.b, rk.pb))
 		ents = append(ents, ent{k, typ, rk})
